@@ -313,7 +313,8 @@ func (b *blockBuilder) SetContext(context string) {
 
 func (b *blockBuilder) Build() *Block {
 	// the builder stays usable: the table its terms were converted against is left untouched
-	b.symbols = b.table.Clone().SplitOff(b.symbolsStart)
+	base := b.table.Clone()
+	b.symbols = base.SplitOff(b.symbolsStart)
 
 	facts := make(datalog.FactSet, len(*b.facts))
 	copy(facts, *b.facts)
@@ -333,5 +334,6 @@ func (b *blockBuilder) Build() *Block {
 		version: MaxSchemaVersion,
 
 		symbolsBase: b.symbolsStart + 1,
+		baseSymbols: base,
 	}
 }
